@@ -99,14 +99,16 @@ def forward_vals(case, vals):
         out = out - torch.roll(out, 1, dims=-2)
     outs = [out]
     if case["out2"]:
-        v = vals[0]
-        if case["inputs"][0]["kind"] == "G":
+        # "alias": the second residual IS a (non-group, trainable) parameter - a prior pulling it to zero, written as `return err, self.b`:
+        # no copy between the parameter's storage and what the corrector / solver get, so an in-place operation on the residual would
+        # edit the parameter (seed C07f).  Otherwise: half of the first parameter (its Log for a group element).
+        ai = next((k for k, i in enumerate(case["inputs"]) if i["kind"] != "G" and not i["frozen"]), None) if case.get("out2_alias") else None
+        v = vals[0 if ai is None else ai]
+        if ai is None and case["inputs"][0]["kind"] == "G":
             o2 = v.Log().tensor()
         else:
             o2 = v.tensor() if isinstance(v, pp.LieTensor) else v
-        # "alias": the second residual IS the parameter (a prior pulling it to zero, written as `return err, self.b`): no copy between the
-        # parameter's storage and what the corrector / solver get - an in-place operation on the residual would edit the parameter
-        outs.append(o2 if case.get("out2_alias") and case["inputs"][0]["kind"] != "G" else o2 * 0.5)
+        outs.append(o2 if ai is not None else o2 * 0.5)
     return tuple(outs)
 
 
@@ -353,7 +355,11 @@ def model_case(draw, tier):
             # an optimizer object with a past: an EARLIER step() on the same object, with another per-call weight ("weight") or without
             # arguments ("plain"); the judged step is the one after it.  The statement is about every step, not the first of an object.
             "prestep": draw(st.sampled_from((None, None, None, None, None, "weight", "plain"))),
-            "out2_alias": draw(st.sampled_from((False, False, True)))}
+            "out2_alias": draw(st.booleans())}
+    if case["out2"] and case["out2_alias"] and any(i["kind"] != "G" and not i["frozen"] for i in case["inputs"]):
+        case["target"] = False              # with a target the residual is `output - target`, a fresh tensor: no aliasing to speak of
+        if case["kernel"] is None and draw(st.booleans()):
+            case["kernel"], case["corrector"] = "Huber", draw(st.sampled_from(("auto", "Fast", "Triggs")))
     return case
 
 
